@@ -98,6 +98,21 @@ CLAIMED["C07"] = dict(
     design="DESIGN.md section 3, C07",
 )
 
+CLAIMED["C08"] = dict(
+    category="other",
+    technique="static field-access facts (MIR) on identity impls, ADT type facts, key-coverage of the hoist-key converters (typed HIR), structure-only/sorted-iteration rules on the TS digest methods (swc AST)",
+    text=("Decides necessary conditions for rewrite-invariance that hold by construction of the code: the hand-written "
+          "Eq/Ord/Hash of Runtype read only `kind` and descriptions write only `metadata` (comments/JSDoc cannot split or "
+          "reorder anything keyed by a Runtype); union/intersection members, object properties and template alternatives live "
+          "in ordered sets/maps (member and property order unobservable); every arm of the Printable*Key converters binds and "
+          "uses every field of its variant and targets the same-named key variant (hoisting cannot merge types that differ); "
+          "no hash()/hash256() of the runtime family reads metadata or feeds a type name to the writer, and every key iteration "
+          "in them is over a sorted copy."),
+    note=("Trusted: rustc MIR/HIR/ADT facts, swc AST. Not decided: equality of behaviour across spellings (which optimisation "
+          "fires for which shape) - a relational, value-level statement."),
+    design="DESIGN.md section 3, C08",
+)
+
 NOT_APPLICABLE_REASON = {}
 
 
